@@ -107,6 +107,7 @@ func (client *Client) CreateBlock() {
 	cfg := client.GetAPI().GetConfig()
 	beg := types.Now()
 	for {
+		verifLoopTop(client)
 
 		if client.IsClosed() {
 			break
